@@ -66,12 +66,14 @@ fn exec_line(line: &str) -> String {
 /// threads left over after a parallel call (pool workers exit on their own shortly after the
 /// pool is dropped: poll with a grace period)
 fn leaked(before: usize) -> usize {
-    for _ in 0..400 {
+    // 2 s of fine-grained polling, then up to 30 s more: a thread that is blocked for good is still there after
+    // that, one that was merely slow to exit on a loaded machine is not
+    for i in 0..1000 {
         let now = exec_parallel::thread_count();
         if now <= before {
             return 0;
         }
-        std::thread::sleep(std::time::Duration::from_millis(5));
+        std::thread::sleep(std::time::Duration::from_millis(if i < 400 { 5 } else { 50 }));
     }
     exec_parallel::thread_count().saturating_sub(before)
 }
